@@ -85,4 +85,57 @@ class C02(ProgProp):
         return failed
 
 
+    def extra(self, ctx):
+        res = super().extra(ctx)
+        # text level, with extern data types the mock runtime cannot carry (references, pointers,
+        # templates): every closure handed to the dispatcher must capture each of its `in` arguments by value
+        import re
+        from harness import gen_build as GB
+        from harness.common import evaluate, case_hash
+        rng, tier = ctx['rng'], ctx['tier']
+        n = 60 if tier == 'quick' else 2500
+        saved = GB.CTYPES
+        GB.CTYPES = ['int', 'const Payload&', 'Frame*', 'std::shared_ptr<X>', 'My::T<int>', 'char const *', 'std::string']
+        try:
+            cases = [GB.gen_case(rng) for _ in range(n)]
+        finally:
+            GB.CTYPES = saved
+        recs = evaluate(_TextProp(), [{k: v for k, v in c.items() if k != '_info'} for c in cases])
+        post = re.compile(r'return m_dispatcher\(\[&(.*?)\] \{ return m_encapsulee\.(\w+)\.out\.(\w+)\((.*?)\); \}\);')
+        for c, r in zip(cases, recs):
+            res['evaluations'] += 1
+            res['shapes'].append(case_hash([c['src'], c['cfg']]))
+            io = r['impl']
+            if 'ok' not in io:
+                continue
+            cc = io['ok']['files'][1]['contents']
+            bad = []
+            for m in post.finditer(cc):
+                caps = [x.strip() for x in m.group(1).split(',') if x.strip()]
+                args = [x.strip() for x in m.group(4).split(',') if x.strip()]
+                if caps != args:
+                    bad.append(f'{m.group(2)}.out.{m.group(3)}: captured by value {caps}, arguments {args}')
+            rec = {'case': r['case'], 'impl': bad or 'ok', 'model': None, 'failed': bad, 'noshrink': True}
+            if bad:
+                res['failures'].append(rec)
+            elif not r['agree']:
+                rec['model'] = 'generated text differs from the model'
+                res['disagreements'].append(rec)
+        return res
+
+
+class _TextProp:
+    """evaluate() adapter: real build vs model build, projected on the shell source file"""
+    id = 'C02'
+
+    def impl(self, case):
+        from harness import gen_build as GB
+        return GB.build_impl(case)
+
+    def project(self, case, out):
+        if isinstance(out, dict) and 'ok' in out:
+            return {'ok': [f['contents'] for f in out['ok']['files'][:2]]}
+        return out
+
+
 PROP = C02()
